@@ -581,7 +581,12 @@ class ByteVec:
 
         # aligned write, just overwrite the existing chunk
         # length is unchanged, so we can return early
-        if start == first_chunk.start and stop == first_chunk.end:
+        # (a ByteVec value is mutable and must be unpacked into its chunks below, not stored by reference)
+        if (
+            start == first_chunk.start
+            and stop == first_chunk.end
+            and not isinstance(value, ByteVec)
+        ):
             self.__set_chunk(first_chunk.start, value)
             return
 
